@@ -1060,7 +1060,7 @@ class Interp:
         value = BV(0) if static else kws.get("value", BV(0))
         ev = ("staticcall" if static else "call", ("requested-gas", kws["gas"]) if "gas" in kws else None, to, value, payload)
         st = st.copy(trace=st.trace + (ev,), ncalls=st.ncalls + 1)
-        fact_rs = z3.ULT(rsize, BV(2**32))  # return data is bounded like memory (environment assumption shared with the bytecode denotation)
+        fact_rs = z3.ULT(rsize, BV(Mx.ENV_SIZE_BOUND))  # return data is bounded like memory (environment assumption shared with the bytecode denotation)
         if not any(fact_rs.eq(x) for x in env.assumptions):
             env.assumptions.append(fact_rs)
         if not static and env.reentrancy_havoc:
